@@ -57,6 +57,22 @@
 (*      block locator of the client's getheaders: a node that finds no        *)
 (*      locator entry on its chain answers from genesis, and 2000 headers     *)
 (*      from genesis end below the fork.                                      *)
+(*  HonestHandshakeFailsAtEveryStage   connection attempts of the client to    *)
+(*      the honest node (a persistent peer) fail at every stage of the         *)
+(*      handshake - refused, closed after the client's version, closed after   *)
+(*      the node's version before its verack, closed right after the veracks - *)
+(*      before an attempt is served normally.                                  *)
+(*  HonestRedialCutInHandshake    the honest peer's connection is dropped after *)
+(*      the client synced something from it; the redial is accepted and cut     *)
+(*      before the verack; the attempt after that is served.                    *)
+(*  RequestLostWithSyncPeerAfterOtherAnnounced / ...BeforeOtherAnnounced        *)
+(*      the client is current (block and filter headers) with two connected     *)
+(*      followers of the honest chain, the sync peer being the one that is not  *)
+(*      the honest node p1; a new block is announced by the sync peer first     *)
+(*      (it is sent the getheaders), the sync peer leaves for good before it    *)
+(*      answered; the other follower's announcement reaches the client before   *)
+(*      resp. after that departure.  Realised with the node of the sync peer    *)
+(*      shut down (no redial succeeds).                                         *)
 (***************************************************************************)
 EXTENDS Client
 
@@ -121,6 +137,28 @@ ShapeStep ==
       THEN {"invext"} ELSE {})
   \cup (IF a.op = "SyncHdr" /\ kind[a.p] = "honest" /\ "invext" \in shape /\ hdrh' = HonestTipH /\ hdrh' > hdrh
       THEN {"ReorgAnnouncedByInvBeyondOneHeadersMessage"} ELSE {})
+  \* --- handshake failures of the honest (persistent) peer
+  \cup (IF a.op = "HsFail" /\ a.p = 1 /\ kind[1] = "honest"
+      THEN (IF a.n = 1 THEN {"hs1"} ELSE IF a.n = 2 THEN {"hs2"} ELSE IF a.n = 3 THEN {"hs3"} ELSE {"hs4"})
+           \cup (IF ps[1] = "down" /\ hdrh > 0 /\ a.n \in {2, 3} THEN {"redialcut"} ELSE {})
+      ELSE {})
+  \cup (IF a.op = "Reconnect" /\ a.p = 1 /\ {"hs1", "hs2", "hs3", "hs4"} \subseteq shape
+      THEN {"HonestHandshakeFailsAtEveryStage"} ELSE {})
+  \cup (IF a.op = "Reconnect" /\ a.p = 1 /\ "redialcut" \in shape
+      THEN {"HonestRedialCutInHandshake"} ELSE {})
+  \* --- RequestLostWithSyncPeer...
+  \cup (IF a.op = "Extend" /\ a.p # 0 /\ a.p = sp /\ a.p # 1 /\ kind[1] = "honest" /\ ps[1] = "up" /\ pv[a.p] = 0
+           /\ OnHonestTip /\ flt = hdrh /\ req' = a.p /\ 1 \in pend'
+      THEN {"askedsync"} ELSE {})
+  \cup (IF a.op = "Inv" /\ a.p = 1 /\ "askedsync" \in shape /\ sp # 0 /\ req = sp /\ sp \in ask /\ ps[sp] = "up"
+      THEN {"otherannounced"} ELSE {})
+  \cup (IF a.op = "Drop" /\ a.p = sp /\ a.p # 1 /\ req = a.p /\ a.p \in ask /\ ~OnHonestTip /\ ps[1] = "up"
+           /\ "askedsync" \in shape
+      THEN (IF 1 \in pend THEN {"reqlostearly"}
+            ELSE IF "otherannounced" \in shape THEN {"RequestLostWithSyncPeerAfterOtherAnnounced"} ELSE {})
+      ELSE {})
+  \cup (IF a.op = "Inv" /\ a.p = 1 /\ "reqlostearly" \in shape /\ ~OnHonestTip /\ ps[1] = "up"
+      THEN {"RequestLostWithSyncPeerBeforeOtherAnnounced"} ELSE {})
 
 SInit == Init /\ shape = {}
 SNext == Next /\ shape' = shape \cup ShapeStep
